@@ -1,7 +1,9 @@
 (* C20 — size arithmetic never wraps.  Statements only; proofs in theories/PMem_proofs.v.
    [w] is the width of size_t in bits: every theorem holds for any width, in particular 64. *)
-From CB Require Import Word PMem PItem SpecItem PMem_proofs Bridge_config.
+From CB Require Import Word PMem PItem SpecItem PMem_proofs Bridge_config GenLeafTypes Bridge_leaf_mem.
+From CBGen Require Import Gen_leaf.
 From CBGen Require Import Gen_config.
+From Coq Require Import ZArith.
 Local Open Scope N_scope.
 
 Theorem C20_highest_bit : forall w a, a < 2^w ->
@@ -51,3 +53,20 @@ Example C20_examples :
   safe_to_multiply 64 (2^33 - 1) (2^32 - 1) = false /\ safe_to_multiply 64 (2^32 - 1) (2^32 - 1) = true /\
   safe_signaling_add 64 (2^64 - 1) 2 = 0 /\ grow_capacity 64 (2^63) = None /\ grow_capacity 64 4 = Some 8.
 Proof. repeat split; vm_compute; reflexivity. Qed.
+
+(* the guard functions of memory_utils.c, as translated statement by statement from this run's
+   clang AST, are the model functions the theorems above are about (all 64-bit operands) *)
+Theorem C20_code_highest_bit : forall n, n < 2^64 -> g_cbor_highest_bit (Z.of_N n) = Z.of_N (highest_bit 64 n).
+Proof. exact bridge_highest_bit. Qed.
+Theorem C20_code_safe_to_multiply : forall a b, a < 2^64 -> b < 2^64 ->
+  g_cbor_safe_to_multiply (Z.of_N a) (Z.of_N b) = b2z (safe_to_multiply 64 a b).
+Proof. exact bridge_safe_to_multiply. Qed.
+Theorem C20_code_safe_to_add : forall a b, a < 2^64 -> b < 2^64 ->
+  g_cbor_safe_to_add (Z.of_N a) (Z.of_N b) = b2z (safe_to_add 64 a b).
+Proof. exact bridge_safe_to_add. Qed.
+Theorem C20_code_safe_signaling_add : forall a b, a < 2^64 -> b < 2^64 ->
+  g_cbor_safe_signaling_add (Z.of_N a) (Z.of_N b) = Z.of_N (safe_signaling_add 64 a b).
+Proof. exact bridge_safe_signaling_add. Qed.
+Theorem C20_code_header_size : forall s, g_cbor_encoded_header_size (Z.of_N s) = Z.of_N (header_size s).
+Proof. exact bridge_header_size. Qed.
+Print Assumptions C20_code_safe_to_multiply.
